@@ -417,22 +417,22 @@ theorem upd_kf_skel (s : St α) (cid : Nat) (k : α) : (s.upd cid (fun x => { x 
 theorem setCrash_cands (s : St α) (k : String) : (s.setCrash k).cands = s.cands := by
   unfold St.setCrash; split <;> rfl
 
-def kfStep (acc : St α) (c : Cand α) : St α :=
+def kfStep (cap : Bool) (acc : St α) (c : Cand α) : St α :=
   match c.kf with
   | some kf =>
     if A.isZero c.vote then acc.setCrash "ZeroDivisionError"
-    else acc.upd c.cid (fun x => { x with kf := some (A.div .up (A.mul .up kf acc.quota) c.vote) })
+    else acc.upd c.cid (fun x => { x with kf := some (kfCap A cap (A.div .up (A.mul .up kf acc.quota) c.vote)) })
   | none => acc.setCrash "TypeError"
 
-theorem kfUpdate_eq (s : St α) : kfUpdate A s = s.elected.foldl (kfStep A) s := rfl
+theorem kfUpdate_eq (cap : Bool) (s : St α) : kfUpdate A cap s = s.elected.foldl (kfStep A cap) s := rfl
 
-theorem MInv.kfFold (l : List (Cand α)) {s : St α} (h : MInv A s)
-    (hel : ∀ c ∈ l, ∀ x ∈ s.cands, x.cid = c.cid → x.st = .elected) : MInv A (l.foldl (kfStep A) s) := by
+theorem MInv.kfFold (cap : Bool) (l : List (Cand α)) {s : St α} (h : MInv A s)
+    (hel : ∀ c ∈ l, ∀ x ∈ s.cands, x.cid = c.cid → x.st = .elected) : MInv A (l.foldl (kfStep A cap) s) := by
   induction l generalizing s with
   | nil => exact h
   | cons c cs ih =>
     simp only [List.foldl_cons]
-    have hstep : MInv A (kfStep A s c) ∧ (kfStep A s c).skel = s.skel := by
+    have hstep : MInv A (kfStep A cap s c) ∧ (kfStep A cap s c).skel = s.skel := by
       unfold kfStep
       split
       · split
@@ -445,9 +445,9 @@ theorem MInv.kfFold (l : List (Cand α)) {s : St α} (h : MInv A s)
     have := hel c' (by simp [hc']) x0 hx0 ((skel_cid hsk).trans hxc)
     rw [← (skel_st hsk).1]; exact this
 
-theorem MInv.kfUpdate {s : St α} (h : MInv A s) : MInv A (Droop.kfUpdate A s) := by
+theorem MInv.kfUpdate (cap : Bool) {s : St α} (h : MInv A s) : MInv A (Droop.kfUpdate A cap s) := by
   rw [kfUpdate_eq]
-  apply h.kfFold A
+  apply h.kfFold A cap
   intro c hc x hx hxc
   unfold St.elected at hc
   rw [List.mem_filter] at hc
@@ -562,8 +562,8 @@ theorem MInv.meekIterate (hA : LawfulArith A) (o : MeekOpts) (omega : α) :
     all_goals first
       | exact hc
       | exact hc.logMsg A _ _ _
-      | exact hc.kfUpdate A
-      | exact ih _ _ (hc.kfUpdate A)
+      | exact hc.kfUpdate A true
+      | exact ih _ _ (hc.kfUpdate A true)
 
 theorem MInv.meekDefeatBatch (hA : LawfulArith A) (hz : A.isZero A.zero = true) (o : MeekOpts) {s : St α} (h : MInv A s)
     (cids : List Nat) : MInv A (Droop.meekDefeatBatch A o s cids) := by
